@@ -338,6 +338,10 @@ def run_case(inp):
         return viols
     tomo = r.integers(-6, 7, size=(26, 25, 24)).astype(np.float32)
     pos = np.array([[r.integers(7, 18), r.integers(7, 17), r.integers(7, 16)] for _ in range(inp["nmol"])], dtype=np.float32)
+    if len(pos) >= 3:
+        # two molecules whose sampling windows cross tomogram faces (padding is part of the result)
+        pos[-1] = [1, r.integers(7, 17), 22]
+        pos[-2] = [r.integers(7, 18), 0, r.integers(7, 16)]
     mole = Molecules(pos)
     tmpl = r.integers(-3, 4, size=(5, 5, 5)).astype(np.float32)
 
